@@ -19,6 +19,8 @@ fn optn(s: &str) -> Option<usize> {
 pub fn rerun(line: &str) -> Option<String> {
     let pre: Vec<&str> = line.split_whitespace().take_while(|t| *t != "=>").collect();
     match pre.as_slice() {
+        ["buildafter", hx, e, m, v, k, vbig] => Some(crate::gen::buildafter_line(
+            &unhex(hx), crate::common::Opts { ecl: optn(e), mode: optn(m), version: optn(v), mask: optn(k) }, vbig.parse().ok()?)),
         ["buildvh", m, e, len, f, e0] => Some(crate::gen::buildvh_line(
             m.parse().ok()?, e.parse().ok()?, len.parse().ok()?, optn(f), e0.parse().ok()?)),
         ["buildh", hx, e, m, v, k, e0, m0, v0, k0] => Some(crate::gen::buildh_line(
